@@ -64,7 +64,7 @@ def _open_of(func, call, fh):
 def run(db: ProgramDB, chk) -> None:
     from ..specs.discipline import check_pickle_hooks
     check_pickle_hooks(db, chk, "C19.R4-default-pickling", "hta.analyzers.critical_path_analysis", ["CPNode", "CPEdge", "_CPGraphData"])
-    chk.floor("C19.R4-default-pickling", 6)
+    chk.floor("C19.R4-default-pickling", 9)
     from .c09 import check_reset_before_accumulate
     check_reset_before_accumulate(db, chk, "C19.R5-recomputation-on-a-restored-graph")    # restore -> critical_path() again must rebuild, not extend, the restored edge set
     m = db.mod(MOD)
